@@ -97,10 +97,11 @@ func c16FramesChild() {
 	n := 0
 	for sc.Scan() {
 		w := strings.Fields(sc.Text())
-		if len(w) != 2 {
+		if len(w) != 3 {
 			continue
 		}
 		max, _ := strconv.Atoi(w[0])
+		expectProbe := w[2] == "1" // the model says the link is open with nothing half-read: the probe must be routed
 		var chunks [][]byte
 		if w[1] != "-" {
 			for _, h := range strings.Split(w[1], ",") {
@@ -143,11 +144,16 @@ func c16FramesChild() {
 		// probe the victim link: still reading and routing?
 		probeOK := false
 		if !closed {
-			v1.SetWriteDeadline(time.Now().Add(300 * time.Millisecond))
+			// generous limits: a stalled goroutine on a loaded machine must not look like a closed or stuck link
+			v1.SetWriteDeadline(time.Now().Add(3 * time.Second))
 			if _, err := v1.Write(probe); err != nil {
 				closed = true
 			} else {
-				for i := 0; i < 400; i++ {
+				limit := 80 // 20 ms when the probe is expected to be swallowed as the body of an incomplete frame
+				if expectProbe {
+					limit = 12000 // 3 s
+				}
+				for i := 0; i < limit; i++ {
 					if core.Count() > routed {
 						probeOK = true
 						break
@@ -432,7 +438,11 @@ func c16FramesPart(c *Ctx) {
 	restarts := 0
 	crashes := 0
 	for next < len(cases) && restarts < 12 {
-		got, stderr, died := c16RunChild(c, cases[next:])
+		ep := make([]bool, len(cases)-next)
+		for i := range ep {
+			ep[i] = pred[next+i] == "open" && rest[next+i] == 0 && !strings.HasPrefix(cases[next+i].Note, "z-")
+		}
+		got, stderr, died := c16RunChild(c, cases[next:], ep)
 		for i, g := range got {
 			cs := cases[next+i]
 			class := "open"
@@ -452,7 +462,7 @@ func c16FramesPart(c *Ctx) {
 			if g["uok"] != "true" {
 				r.Violation("C16-frames-unrelated", "after a hostile stream on one link an unrelated connection stopped delivering", cs)
 			}
-			if class == "open" && g["probe"] != "true" && rest[next+i] == 0 {
+			if class == "open" && g["probe"] != "true" && ep[i] {
 				r.Violation("C16-frames-stuck", "the victim link stays open but no longer routes a valid frame", cs)
 			}
 			c16CheckAlloc(c, cs, g)
@@ -492,7 +502,7 @@ func c16FramesPart(c *Ctx) {
 	// listed finding C16/D27: the compressed receive case allocates the DECLARED length up front.
 	// Witness replayed in a subprocess of its own: 13 bytes (LZW id, declared 16 MiB; 0xFFFFFFFF allocates 8 GiB in total and keeps a worker busy for over a minute).
 	w := c16FCase{Chunks: []string{"4e010000000d00c86401000000"}, Note: "directed z-alloc: lzw envelope of 13 bytes declaring 16 MiB"}
-	got, _, _ := c16RunChild(c, []c16FCase{w})
+	got, _, _ := c16RunChild(c, []c16FCase{w}, []bool{true})
 	if len(got) == 1 {
 		r.Case("F|"+w.Note, true)
 		c16CheckAlloc(c, w, got[0])
@@ -521,16 +531,20 @@ func c16CheckAlloc(c *Ctx, cs c16FCase, g map[string]string) {
 
 // c16RunChild feeds the cases to a fresh subprocess; returns the per-case results it managed to
 // print, its stderr, and whether it died before finishing.
-func c16RunChild(c *Ctx, cases []c16FCase) ([]map[string]string, string, bool) {
+func c16RunChild(c *Ctx, cases []c16FCase, expectProbe []bool) ([]map[string]string, string, bool) {
 	cmd := exec.Command(os.Args[0])
 	cmd.Env = append(os.Environ(), "VERIF_C16_CHILD=frames", "GOMEMLIMIT=1GiB", "GOTRACEBACK=single")
 	var in bytes.Buffer
-	for _, cs := range cases {
+	for i, cs := range cases {
 		arg := "-"
 		if len(cs.Chunks) > 0 {
 			arg = strings.Join(cs.Chunks, ",")
 		}
-		fmt.Fprintf(&in, "%d %s\n", cs.Max, arg)
+		ep := 0
+		if i < len(expectProbe) && expectProbe[i] {
+			ep = 1
+		}
+		fmt.Fprintf(&in, "%d %s %d\n", cs.Max, arg, ep)
 	}
 	cmd.Stdin = &in
 	var out, errb bytes.Buffer
